@@ -311,6 +311,11 @@ func (u *Universe) ContainerElems(c ssa.Value) []ssa.Value {
 			return srcs(x.X)
 		case *ssa.Slice:
 			return srcs(x.X)
+		case *ssa.Call:
+			// append(a, b...): the elements of both
+			if BuiltinName(x) == "append" && len(x.Call.Args) == 2 {
+				return append(srcs(x.Call.Args[0]), srcs(x.Call.Args[1])...)
+			}
 		case *ssa.Parameter:
 			return nil
 		}
